@@ -245,7 +245,7 @@ Definition op_div (a b : jsnum) : jsnum :=
   else if is_inf l && is_inf r then NFlt fnan
   else if is_zero l && is_zero r then NFlt fnan
   else if is_inf l then NFlt (finf (xorb (sign_bit l) (sign_bit r)))
-  else if is_inf r then NFlt (S754_zero (xorb (sign_bit l) (sign_bit r)))
+  else if is_inf r then (if xorb (sign_bit l) (sign_bit r) then NFlt fnegzero else NInt 0)   (* _positiveZero = valueInt(0) *)
   else if is_zero r then NFlt (finf (xorb (sign_bit l) (sign_bit r)))
   else floatToValue (fdiv l r).
 
